@@ -256,7 +256,34 @@ func init() {
 		for _, i := range ints(f[3]) {
 			os = append(os, w.ts[i])
 		}
-		r, err := w.ts[atoi(f[1])].Concat(atoi(f[2]), os...)
+		form := ""
+		if len(f) > 4 {
+			form = f[4]
+		}
+		var r *tensor.Dense
+		var err error
+		switch form {
+		case "h":
+			r, err = w.ts[atoi(f[1])].Hstack(os...)
+		case "v":
+			r, err = w.ts[atoi(f[1])].Vstack(os...)
+		case "api":
+			if len(os) == 0 { // tensor.Concat hands back the single operand itself; use the method
+				r, err = w.ts[atoi(f[1])].Concat(atoi(f[2]))
+				break
+			}
+			var ots []tensor.Tensor
+			for _, o := range os {
+				ots = append(ots, o)
+			}
+			var rt tensor.Tensor
+			rt, err = tensor.Concat(atoi(f[2]), w.ts[atoi(f[1])], ots...)
+			if err == nil {
+				r = rt.(*tensor.Dense)
+			}
+		default:
+			r, err = w.ts[atoi(f[1])].Concat(atoi(f[2]), os...)
+		}
 		if err != nil {
 			return "err"
 		}
